@@ -46,6 +46,9 @@ def cases():
     yield class_src("B", None, "@dataclass", ["a: int"]) + "class C(B):\n    b: int = 0\n", ["B", "C"]
     yield class_src("S", None, "@dataclass", ["name: str", "visible: bool = True"]) + class_src("C1", "S", "@dataclass", ["radius: float = 1.0"]) \
         + class_src("C2", "S", "@dataclass", ["side: float = 1.0"]) + class_src("G", "C2", "@dataclass", ["depth: int = 0"]), ["S", "C1", "C2", "G"]
+    # a plain class between two dataclasses: its annotated attributes are no fields of the grandchild
+    yield class_src("A", None, "@dataclass", ["a: int", "b: int = 0"]) + "class Mid(A):\n    x: float = 1.0\n    y: int = 3\n" + class_src("C", "Mid", "@dataclass", ["c: int = 5"]), ["A", "Mid", "C"]
+    yield class_src("A", None, "@dataclass", ["a: int = 1"]) + "class Mid(A):\n    x: float\n" + "class Low(Mid):\n    z: int = 0\n" + class_src("C", "Low", "@dataclass", ["c: int = 5"]), ["A", "Low", "C"]
     yield class_src("B", None, "@dataclass", ["ident: int", "name: str = ''", "tags: int = 0"]) + class_src("C", "B", "@dataclass", ["ident: int = 1", "extra: int = 2"]), ["B", "C"]
 
 
